@@ -103,19 +103,21 @@ def verdicts(chk: Check) -> None:
                     changed = True
         return al
 
+    ff = chk.ctx.facts.analyse(pv)
+    rets = [r for r in ast.walk(pv.node) if isinstance(r, ast.Return) and r.value is not None and not (isinstance(r.value, ast.Constant))]
+    err_ret = [r for r in rets if isinstance(r.value, ast.Call) and last_name(r.value) == 'PortValidationError' and r.value.args and isinstance(r.value.args[0], ast.Name)]
+    errvar = err_ret[0].value.args[0].id if len(err_ret) == 1 else None   # the local that carries the message, whatever it is called
     for c in [x for x in calls_in_func(pv) if norm(x.func) == 'self.validator']:
-        ff = chk.ctx.facts.analyse(pv)
         node = ff.cfg.nodes_containing(c)[0]
-        ok = node.kind == 'stmt' and isinstance(node.ast, ast.Assign)
+        ok = node.kind == 'stmt' and isinstance(node.ast, ast.Assign) and errvar is not None
         if ok:
             al = alias_closure(pv, norm(node.ast.targets[0]))
-            ok = any(isinstance(s_, ast.If) and any(norm(s_.test) == f'{v} is not None' for v in al) and any(
-                isinstance(x, ast.Assign) and norm(x.targets[0]) == 'validation_error' and norm(x.value) in al for x in s_.body) for s_ in ast.walk(pv.node))
+            stores = [m for m in ff.cfg.nodes if m.kind == 'stmt' and isinstance(m.ast, ast.Assign) and norm(m.ast.targets[0]) == errvar and norm(m.ast.value) in al]
+            ok = bool(stores) and all(any(a_[0] in ('notnone', 'T') and a_[1] == norm(m.ast.value) for a_ in ff.at(m)) for m in stores) and \
+                any(m.id in ff.cfg.reachable([node], edge_ok=no_exc) for m in stores)
         chk.ob('DOM-verdict-not-dropped', pv, ok, 'a port validator\'s message becomes the validation error', node=c, kind='validator-verdict')
-    rets = [r for r in ast.walk(pv.node) if isinstance(r, ast.Return) and r.value is not None and not (isinstance(r.value, ast.Constant))]
-    ok = len(rets) == 1 and isinstance(rets[0].value, ast.Call) and last_name(rets[0].value) == 'PortValidationError' and norm(rets[0].value.args[0]) == 'validation_error'
-    ff = chk.ctx.facts.analyse(pv)
-    ok = ok and all(('notnone', 'validation_error') in ff.at(n) for n in ff.cfg.nodes if n.kind == 'return' and n.ast is rets[0])
+    ok = len(rets) == 1 and errvar is not None
+    ok = ok and all(any(a_[0] in ('notnone', 'T') and a_[1] == errvar for a_ in ff.at(n)) for n in ff.cfg.nodes if n.kind == 'return' and n.ast is rets[0])
     chk.ob('DOM-verdict-not-dropped', pv, ok, 'Port.validate returns an error exactly when one was found', kind='port-returns-error')
     nv = prog.func('ports.PortNamespace.validate')
     for c in [x for x in calls_in_func(nv) if norm(x.func) == 'self.validator']:
@@ -254,12 +256,20 @@ def read_only(chk: Check) -> None:
     chk.ob('OWN-frozen', pp, ok, 'pre_process returns a frozen mapping', kind='returns-frozen')
     cfg = cfg_of(pp)
     ff = chk.ctx.facts.analyse(pp)
-    rec = [n for n in cfg.nodes if n.kind == 'stmt' and isinstance(n.ast, ast.Assign) and isinstance(n.ast.targets[0], ast.Subscript) and isinstance(n.ast.value, ast.Call)
-           and last_name(n.ast.value) == 'pre_process']
-    plain = [n for n in cfg.nodes if n.kind == 'stmt' and isinstance(n.ast, ast.Assign) and isinstance(n.ast.targets[0], ast.Subscript) and norm(n.ast.targets[0].value) == pp.params[1]
-             and not (isinstance(n.ast.value, ast.Call) and last_name(n.ast.value) == 'pre_process')]
-    ok = len(rec) == 1 and all(any(a[0] == 'isinst' and 'PortNamespace' in a[2] for a in ff.at(r)) for r in rec) and all(
-        not any(a[0] == 'isinst' and 'PortNamespace' in a[2] for a in ff.at(p)) for p in plain)
+    # every store into the mapping, with the facts under which it happens (a conditional expression counts as its two branches)
+    virt = []
+    for n in cfg.nodes:
+        if n.kind == 'stmt' and isinstance(n.ast, ast.Assign) and isinstance(n.ast.targets[0], ast.Subscript) and norm(n.ast.targets[0].value) == pp.params[1]:
+            v_ = n.ast.value
+            if isinstance(v_, ast.IfExp):
+                virt.append((ff.at(n) | frozenset(ff.cond_atoms(v_.test, True)), v_.body))
+                virt.append((ff.at(n) | frozenset(ff.cond_atoms(v_.test, False)), v_.orelse))
+            else:
+                virt.append((ff.at(n), v_))
+    is_ns = lambda fs: any(a[0] == 'isinst' and 'PortNamespace' in a[2] for a in fs)
+    rec = [(fs, v_) for fs, v_ in virt if isinstance(v_, ast.Call) and last_name(v_) == 'pre_process']
+    plain = [(fs, v_) for fs, v_ in virt if not (isinstance(v_, ast.Call) and last_name(v_) == 'pre_process')]
+    ok = len(rec) == 1 and all(is_ns(fs) for fs, _ in rec) and all(not is_ns(fs) for fs, _ in plain)
     chk.ob('OWN-frozen', pp, ok, 'the value of every namespace port is itself pre-processed (frozen at every declared level); plain ports keep their value', kind='nested-frozen')
 
 
@@ -282,17 +292,40 @@ def required_override(chk: Check) -> None:
     chk.ob('PROV-default-overrides-required', ro, ok, 'required_override keeps "required" only when no default is given, and is False whenever one is', kind='override')
     init = prog.func('ports.InputPort.__init__')
     sup = [c for c in calls_in_func(init, '__init__')]
-    ok = len(sup) == 1 and any(k.arg == 'required' and norm(k.value) == 'InputPort.required_override(required, default)' for k in sup[0].keywords)
+    from ..rules import Resolver
+    ok = len(sup) == 1 and any(k.arg == 'required' and Resolver(init).text(k.value) == 'InputPort.required_override(required, default)' for k in sup[0].keywords)
     chk.ob('PROV-default-overrides-required', init, ok, 'the port is constructed with the overridden flag', node=sup[0] if sup else None, kind='passed-to-port')
     stored = any(isinstance(n, ast.Assign) and norm(n.targets[0]) == 'self._default' and norm(n.value) == 'default' for n in ast.walk(init.node))
     chk.ob('PROV-default-overrides-required', init, stored, 'the default is stored', kind='default-stored')
     pv = prog.func('ports.Port.validate')
     ffv = chk.ctx.facts.analyse(pv)
-    req = [n for n in ffv.cfg.nodes if n.kind == 'stmt' and isinstance(n.ast, ast.Assign) and norm(n.ast.targets[0]) == 'validation_error' and 'required value was not provided' in norm(n.ast.value)]
-    ok = len(req) == 1 and ('T', 'self._required') in ffv.at(req[0]) or (len(req) == 1 and ('T', 'self.required') in ffv.at(req[0]))
-    chk.ob('PROV-default-overrides-required', pv, ok, 'a missing value is an error exactly for required ports', kind='required-enforced')
-    typ = [n for n in ffv.cfg.nodes if n.kind == 'stmt' and isinstance(n.ast, ast.Assign) and norm(n.ast.targets[0]) == 'validation_error' and 'is not of the right type' in norm(n.ast.value)]
-    chk.ob('PROV-default-overrides-required', pv, len(typ) == 1, 'a value of the wrong type is an error', kind='type-enforced')
+    # decision table over (value given?, required?, type declared?, value of that type?): what Port.validate returns on every path
+    from ..decisions import leaf, paths_under
+    vp = pv.params[1]
+
+    def key(txt: str):
+        k, pol = leaf(ffv, ast.parse(txt, mode='eval').body)
+        return k, pol
+
+    def outcomes(assign: dict) -> set:
+        val = {}
+        for txt, truth in assign.items():
+            k, pol = key(txt)
+            val[k] = truth == pol
+        got = set()
+        for path in paths_under(ffv, val):
+            if path[-1] is not ffv.cfg.exit:
+                continue
+            rets_ = [m for m in path if m.kind == 'return']
+            v_ = rets_[-1].ast.value if rets_ else None
+            got.add('none' if v_ is None or (isinstance(v_, ast.Constant) and v_.value is None) else ('error' if isinstance(v_, ast.Call) and last_name(v_) == 'PortValidationError' else norm(v_)))
+        return got
+    o1 = outcomes({f'{vp} is UNSPECIFIED': True, 'self._required': True})
+    o2 = outcomes({f'{vp} is UNSPECIFIED': True, 'self._required': False})
+    chk.ob('PROV-default-overrides-required', pv, o1 == {'error'} and o2 == {'none'}, f'a missing value is an error exactly for required ports (required: {sorted(o1)}; not required: {sorted(o2)})',
+           kind='required-enforced')
+    o3 = outcomes({f'{vp} is UNSPECIFIED': False, 'self._valid_type is None': False, f'isinstance({vp}, self._valid_type)': False})
+    chk.ob('PROV-default-overrides-required', pv, o3 == {'error'}, f'a value of the wrong type is an error on every path ({sorted(o3)})', kind='type-enforced')
 
 
 # ---------------------------------------------------------------------- defaults
